@@ -94,6 +94,16 @@ def step (s : St) (ws : List String) : St × String :=
       match setParamsAll cparams s.ctx (xs.take 7) (xs.drop 7) with
       | .ok c => let s' := { s with ctx := c }; (s', dump "ok" s')
       | .error e => (s, dump (errStr e) s)
+  | ["dwin", wl] =>
+      if s.kind != 'd' then (s, dump "bad-op" s) else
+      -- a frame declaring a window of 2^wl bytes, decoded by the streaming decoder with the parameters in force: refused for its window iff wl exceeds
+      -- ZSTD_d_windowLogMax (100; 0 stands for the default limit 27), whatever the other parameters (output buffer mode included) say
+      let lim : Int := match indexOfId dparams 100 with
+        | some k => (s.ctx.vals[k]?).getD 0
+        | none => 0
+      let lim := if lim == 0 then 27 else lim
+      let s' := { s with ctx := endFrame s.ctx }
+      (s', dump (if (wl.toInt?.getD 0) > lim then "err:window" else "ok") s')
   | ["dframe", dmg, _] =>
       if s.kind != 'd' then (s, dump "bad-op" s) else
       -- a checksummed frame decoded with the parameters in force: a damaged checksum is reported unless ZSTD_d_forceIgnoreChecksum (1002) is set
